@@ -170,15 +170,21 @@ func genScript(r *hx.Rng, idx int) script {
 		j := r.Intn(i + 1)
 		perm[i], perm[j] = perm[j], perm[i]
 	}
-	var msgs []string
-	for _, i := range perm[:nh] {
-		msgs = append(msgs, honest(i))
+	var msgs, held []string
+	holdBack := r.Chance(1, 2) // keep the party alive while the Byzantine messages arrive
+	for j, i := range perm[:nh] {
+		if holdBack && j >= k-1 {
+			held = append(held, honest(i))
+		} else {
+			msgs = append(msgs, honest(i))
+		}
 	}
 	nb := r.Pick(0, 1, 1, 2, 3, 5, 8)
 	for b := 0; b < nb; b++ {
 		msgs = append(msgs, byz(r, n))
 	}
 	shuffle(r, msgs)
+	msgs = append(msgs, held...)
 	// duplicates of earlier messages, verbatim
 	nd := r.Pick(0, 0, 1, 2)
 	for d := 0; d < nd && len(msgs) > 0; d++ {
